@@ -150,18 +150,22 @@ func runC02Rest(c *Ctx, q *qbAnchors, funcs []*ssa.Function, lc *LockClass) {
 			continue
 		}
 		n := 0
-		for _, s := range fieldStores(fn, Tn, sf) {
+		// the subtraction may be made by a helper of the completion: the subtrahend is then read in the completion's
+		// terms (a parameter of the helper stands for the argument of the call)
+		for _, vs := range fieldStoresDeepA1(fn, Tn, sf, 3) {
+			s := vs.S
 			bo, ok := s.Val.(*ssa.BinOp)
 			if !ok || bo.Op != token.SUB {
 				continue
 			}
 			n++
 			good := false
+			sub := resolveArgA1(bo.Y, vs.Chain)
 			// subtrahend: parameter of int64, or load of done.sizeField of a parameter
-			if pa, ok := bo.Y.(*ssa.Parameter); ok && pa.Parent() == fn {
+			if pa, ok := sub.(*ssa.Parameter); ok && pa.Parent() == fn {
 				good = true
 			}
-			if u, ok := bo.Y.(*ssa.UnOp); ok && u.Op == token.MUL {
+			if u, ok := sub.(*ssa.UnOp); ok && u.Op == token.MUL {
 				for _, d := range dones {
 					if isFieldAccess(u.X, d.T, d.sizeField) {
 						if fa, ok := u.X.(*ssa.FieldAddr); ok {
